@@ -354,9 +354,40 @@ def rule_R5(text):
     return text
 
 
-RULES = {"R1": rule_R1, "R2": rule_R2, "R3": rule_R3, "R4": rule_R4, "R5": rule_R5}
+def rule_R6(text):
+    """E.iter().map(|&v| M).collect()
+       -> ({ let mut __v = Vec::new(); for __r in E.iter() { let v = *__r; __v.push(M); } __v })"""
+    toks = tokenize(text)
+    hits = [i for i in range(len(toks))
+            if _seq(toks, i, [".", "iter", "(", ")", ".", "map", "(", "|", "&"])
+            and toks[i + 9].kind == "id" and toks[i + 10].text == "|"]
+    if len(hits) != 1:
+        raise Unsupported("R6 matches %d times" % len(hits))
+    i = hits[0]
+    v = toks[i + 9].text
+    map_open = i + 6
+    map_close = match_close(toks, map_open)
+    if not _seq(toks, map_close + 1, [".", "collect", "(", ")"]):
+        raise Unsupported("R6: map not followed by collect()")
+    e0 = _expr_start(toks, i, 0)
+    # a struct-literal field `name: E...` : the receiver starts after the colon
+    j = i - 1
+    while j >= e0:
+        if toks[j].text == ":" :
+            e0 = j + 1
+            break
+        j -= 1
+    E = text[toks[e0].start:toks[i].start].strip()
+    M = text[toks[i + 10].end:toks[map_close].start].strip()
+    new = "({ let mut __v = Vec::new(); for __r in %s.iter() { let %s = *__r; __v.push(%s); } __v })" % (E, v, M)
+    return text[:toks[e0].start] + new + text[toks[map_close + 4].end:]
+
+
+RULES = {"R1": rule_R1, "R2": rule_R2, "R3": rule_R3, "R4": rule_R4, "R5": rule_R5, "R6": rule_R6}
 
 RULE_TEXT = {
+    "R6": "E.iter().map(|&v| M).collect()  =>  ({ let mut __v = Vec::new(); for __r in E.iter() { let v = *__r; "
+          "__v.push(M); } __v })",
     "R5": "X.to_le_bytes()  =>  __to_le_bytes(X)  (call redirected to a wrapper with the assumed little-endian contract; "
           "Verus cannot attach a specification to the core method)",
     "R4": "E.iter().any(|v| P)  =>  ({ let mut __a = false; for __r in E.iter() { let v = __r; if P "
